@@ -507,6 +507,52 @@ def transform_real(prog, mode, sd):
     return r
 
 
+_rt = {}
+
+
+def roundtrip_ok(prog):
+    """the untransformed program survives emit -> frontend -> export (else the request is malformed, e.g. after shrinking)"""
+    key = dumps(prog)
+    if key not in _rt:
+        try:
+            out = fir.export_unit(fir.parse_fortran(fir.emit_fortran(prog, wrap_program=False)), main=fir.prog_main(prog))
+            _rt[key] = dumps(out) == dumps(fir.normalize(prog))
+        except Exception:
+            _rt[key] = False
+        if len(_rt) > 4000:
+            _rt.clear()
+    return _rt[key]
+
+
+def _stmt_lists(s):
+    """indices of the statement-list children of a statement"""
+    h = _h(s)
+    return {'do': [5], 'while': [2], 'assoc': [2], 'if': [2, 3]}.get(h, [])
+
+
+def shrink_stmts(stmts):
+    """structure-preserving smaller variants of a statement list"""
+    for k in range(len(stmts)):
+        yield stmts[:k] + stmts[k + 1:]
+    for k, s in enumerate(stmts):
+        h = _h(s)
+        if h in ('do', 'while', 'if'):
+            for j in _stmt_lists(s):
+                yield stmts[:k] + list(s[j]) + stmts[k + 1:]
+        for j in _stmt_lists(s):
+            for v in shrink_stmts(list(s[j])):
+                yield stmts[:k] + [s[:j] + [v] + s[j + 1:]] + stmts[k + 1:]
+        if h == 'select':
+            for ci, c in enumerate(s[2]):
+                for v in shrink_stmts(list(c[1])):
+                    yield stmts[:k] + [s[:2] + [s[2][:ci] + [[c[0], v]] + s[2][ci + 1:]] + s[3:]] + stmts[k + 1:]
+            for v in shrink_stmts(list(s[3])):
+                yield stmts[:k] + [s[:3] + [v]] + stmts[k + 1:]
+        if h == 'assoc' and len(s[1]) > 1:
+            for bi in range(len(s[1])):
+                yield stmts[:k] + [[s[0], s[1][:bi] + s[1][bi + 1:], s[2]]] + stmts[k + 1:]
+
+
 def dec_req(req):
     if _h(req) != 'c29' or len(req) != 5:
         raise ValueError('malformed request')
@@ -601,7 +647,7 @@ class C29(Prop):
     # -- generator
     def gen(self, rng, tier):
         self._tier = tier
-        n = {'quick': 45, 'thorough': 600, 'search': 300}.get(tier, 45)
+        n = {'quick': 45, 'thorough': 260, 'search': 200}.get(tier, 45)
         for k in range(n):
             seed = rng.randrange(1 << 30)
             r = random.Random(seed)
@@ -627,10 +673,25 @@ class C29(Prop):
             req = [A('c29'), A(mode), sd, prog, inputs]
             yield Case(req, stream=mode, nontrivial=True)
 
+    def shrink_candidates(self, req):
+        mode, sd, prog, inputs = req[1], req[2], req[3], req[4]
+        if len(inputs) > 1:
+            for k in range(len(inputs)):
+                yield req[:4] + [[inputs[k]]]
+        units = prog[2:]
+        if len(units) > 1:
+            for k in range(1, len(units)):
+                yield req[:3] + [prog[:2] + units[:k] + units[k + 1:]] + [inputs]
+        for k, u in enumerate(units):
+            for v in shrink_stmts(list(u[4])):
+                yield req[:3] + [prog[:2] + units[:k] + [u[:4] + [v]] + units[k + 1:]] + [inputs]
+
     # -- real code
     def impl(self, req):
         mode, sd, prog, _inputs = dec_req(req)
         r = transform_real(prog, mode, sd)
+        if r[0] == 'error' and r[1] == 'unsupported' and not roundtrip_ok(prog):
+            raise ValueError('malformed program (does not survive the untransformed round trip)')
         if r[0] == 'error':
             return [A('error'), A(r[1])]
         return [A('ok'), [A(f) for f in classify(prog, mode, sd)], r[1]]
@@ -652,6 +713,8 @@ class C29(Prop):
         if r[0] == 'error':
             if r[1] == 'frontend':
                 return []       # C01's business (selectors the frontend cannot parse); generator stays inside
+            if r[1] == 'unsupported' and not roundtrip_ok(prog):
+                raise ValueError('malformed program (does not survive the untransformed round trip)')
             return [Failure(f'{mode} raised {r[1]}: {r[2]}', cls_of())]
         tprog = r[1]
         fails = []
@@ -691,9 +754,7 @@ class C29(Prop):
     def _want_gfortran(self, req):
         if not self.TH_GFORTRAN:
             return False
-        if self._tier == 'thorough':
-            return True
-        return zlib.crc32(dumps(req).encode()) % 16 == 0
+        return zlib.crc32(dumps(req).encode()) % (3 if self._tier == 'thorough' else 16) == 0
 
 
 PROP = C29()
